@@ -42,6 +42,7 @@ struct World {
     play_sid: Option<u32>,
     received: usize,
     finished: bool,
+    storm: bool,
 }
 
 impl World {
@@ -160,6 +161,8 @@ impl World {
         let mut guard = 0u64;
         while !self.failed && !until(self) && (!self.c2s.is_empty() || !self.s2c.is_empty()) {
             guard += 1;
+            // with both windows tiny the exchange never falls silent: a pump then ends after a generous number of deliveries
+            if self.storm && guard > 20_000 { break; }
             if guard > 3_000_000 { self.err("scheduler", "err:exchange does not quiesce".into()); break; }
             let to_server = if self.c2s.is_empty() { false } else if self.s2c.is_empty() { true } else { rng.chance(1, 2) };
             let avail = if to_server { self.c2s.len() } else { self.s2c.len() };
@@ -181,10 +184,15 @@ pub fn run_one(rng: &mut Rng, t: &mut Trace, tier: &str) -> usize {
     let mut scfg = ServerSessionConfig::new();
     ccfg.chunk_size = *rng.pick(&cs_tab);
     scfg.chunk_size = *rng.pick(&cs_tab);
-    // never both windows tiny (acknowledgements of acknowledgements would never quiesce); byte-wise delivery only with big windows
+    // byte-wise delivery only with big windows.  With BOTH windows tiny every acknowledgement is acknowledged in turn and the
+    // exchange never falls silent (a property of the protocol, not of the library): the dialogue must still complete and every
+    // item arrive; only the final wait for silence is skipped then (see exchange)
     let big = [1u32 << 20, 2_500_000, 0xFFFFFFFF];
     let any = [1u32, 100, 4096, 1 << 20, 0xFFFFFFFF];
-    if mode == 1 || rng.chance(1, 2) {
+    if mode != 1 && rng.chance(1, 8) {
+        ccfg.window_ack_size = *rng.pick(&[1u32, 2, 16, 100]);
+        scfg.window_ack_size = *rng.pick(&[1u32, 3, 16, 100]);
+    } else if mode == 1 || rng.chance(1, 2) {
         ccfg.window_ack_size = *rng.pick(&big);
         scfg.window_ack_size = *rng.pick(&big);
     } else if rng.chance(1, 2) {
@@ -214,7 +222,7 @@ pub fn exchange(rng: &mut Rng, tier: &str, ccfg: ClientSessionConfig, scfg: Serv
     let (c, _) = ClientSession::new(ccfg.clone()).expect("client");
     let (s, srs) = ServerSession::new(scfg.clone()).expect("server");
     let mut wld = World { c, s, c2s: VecDeque::new(), s2c: VecDeque::new(), clock: *rng.pick(&[0u64, 1 << 24, (1u64 << 32) - 50]), log: vec![], failed: false,
-                          publish, key: key.clone(), connected_client: false, accepted_client: false, play_sid: None, received: 0, finished: false };
+                          publish, key: key.clone(), connected_client: false, accepted_client: false, play_sid: None, received: 0, finished: false, storm: ccfg.window_ack_size <= 16 && scfg.window_ack_size <= 16 };
     wld.log.push(json!({"ev":"Start","scenario": if publish {"publish"} else {"play"},"app":app.as_bytes().to_vec(),"key":key.as_bytes().to_vec(),
                         "cfg":{"ccs":ccfg.chunk_size,"scs":scfg.chunk_size,"cwin":w(ccfg.window_ack_size),"swin":w(scfg.window_ack_size),"mode":mode}}));
     let evs = wld.server_results(srs);
@@ -282,12 +290,16 @@ pub fn exchange(rng: &mut Rng, tier: &str, ccfg: ClientSessionConfig, scfg: Serv
                 wld.client_call("stop_playback", &mut |c| c.stop_playback().map_err(|e| format!("{:?}", e)));
             }
             wld.pump(rng, mode, &|w: &World| w.finished);
-            wld.pump(rng, mode, &|_w: &World| false);
+            // wait for silence - unless both windows are so small that acknowledgements keep acknowledging each other
+            let storm = ccfg.window_ack_size <= 16 && scfg.window_ack_size <= 16;
+            if !storm {
+                wld.pump(rng, mode, &|_w: &World| false);
+            }
         }
     }
     let quiescent = wld.c2s.is_empty() && wld.s2c.is_empty();
     wld.log.push(json!({"ev":"End","quiescent":quiescent}));
-    let good = !wld.failed && quiescent && wld.received >= sent && wld.finished;
+    let good = !wld.failed && (quiescent || (ccfg.window_ack_size <= 16 && scfg.window_ack_size <= 16)) && wld.received >= sent && wld.finished;
     (sent, wld.log, good)
 }
 
